@@ -10,14 +10,14 @@ global size_of usize == 8;
 pub assume_specification[ u64::unbounded_shl ](x: u64, s: u32) -> (r: u64)
     ensures r == (if s < 64 { x << s } else { 0u64 });
 pub assume_specification[ usize::div_ceil ](a: usize, b: usize) -> (r: usize)
-    requires b != 0,
+    requires b == 64,   // narrowed to the only divisor used, which is what Kani harness dep_div_ceil_contract checks on the real std
     ensures r as int == (if a % b == 0 { (a / b) as int } else { a / b + 1 });
 pub fn vmin(a: usize, b: usize) -> (r: usize) ensures r == (if a <= b { a } else { b }) { if a <= b { a } else { b } }
 // num_integer::Integer::div_rem for usize (cross-validated against the real crate by Kani harness dep_div_rem_contract)
 pub trait IntegerShim: Sized {
     spec fn iv(&self) -> int;
     fn div_rem(&self, other: &Self) -> (r: (Self, Self))
-        requires other.iv() > 0, self.iv() >= 0,
+        requires other.iv() == 64, self.iv() >= 0,   // narrowed likewise (dep_div_rem_contract)
         ensures r.0.iv() == self.iv() / other.iv(), r.1.iv() == self.iv() % other.iv();
 }
 impl IntegerShim for usize {
